@@ -13,12 +13,14 @@ META = {
     'text': 'Theorems (Properties_C15.v): the filter verdict is that of the LAST rule whose glob pattern and optional type '
             'suffix match, default pass; the iterative matcher of the code (wildcardMatch, transcribed as glob_iter) terminates within '
             'its fuel and is sound and complete w.r.t. a declarative glob relation and the '
-            'decomposition along the stars (every other character literal); ";" and newline are interchangeable; rejected '
+            'decomposition along the stars (every other character literal); ";" and newline are interchangeable and NOTHING else separates (a text without either is one line; <name>=<value> with a blank-free name '
+            'without ";" is the one rule for that name, whatever punctuation or non-ASCII code units the name holds, and decides exactly the categories the name globs); rejected '
             'lines contribute nothing; typed rules never affect other types, fatal is decided by untyped rules only; ONE filter object '
             'answering a history of messages (address of the category name, name text, type) answers each with the specified verdict of its own '
             'name text and type - independent of the history and of the address, also when consecutive different names share one address. They are '
             're-checked on every run against the constants translated from categoryfilter.cpp/logmessage.h, and the extracted '
-            'model and specification are run against the real CategoryFilter on generated and exhaustively enumerated rule texts, and the object '
+            'model and specification are run against the real CategoryFilter on generated and exhaustively enumerated rule texts (incl. a sweep of every ASCII character and '
+            'non-ASCII look-alikes as would-be separators, and non-ASCII / astral category names handed over as UTF-8 bytes), and the object '
             'model against one real object per rule text on generated histories with adversarial storage of the category names '
             '(one reused buffer, recycled heap blocks, LogMessage copies).',
     'note': 'Trusted: Coq 8.16.1 kernel (vm_compute only for the closed configuration check and the example), no axioms; '
@@ -357,7 +359,7 @@ def unicode_cases():
 
 
 # ---- cross-check against Qt's own QLoggingCategory on the rule subset Qt supports
-QT_NAMES = ['net', 'net.http', 'net.http.client', 'network', 'app', 'app.ui', 'app.ui.dialogs', 'default', 'driver.usb', 'a', 'ab',
+QT_NAMES = ['ns::mod', 'net:tcp', 'ui::widgets', 'drv:usb', 'a,b', 'a#b', 'x|y', "it's", 'say"hi"', 'net', 'net.http', 'net.http.client', 'network', 'app', 'app.ui', 'app.ui.dialogs', 'default', 'driver.usb', 'a', 'ab',
             'a.b', 'a.b+c', 'x(y)', 'z]', 'q$', '^q', 'a|b', 'a?b', 'x.fatal', 'net.debug', 'x.debug.info', 'n', 'core', 'Net', 'aa', 'a-b', 'a/b', 'a{2}']
 
 
